@@ -1,7 +1,8 @@
 """C18 translator: constants the C18 models depend on -> coq/gen/C18Consts.v.
 
-Re-extracted from the Go sources on every run (regex over the declarations; fails loudly
-when a declaration is no longer found, which the runner reports as a broken obligation):
+Re-extracted from the Go sources on every run (regex over the declarations, looked for in the named file and then
+in the other files of its package).  A value that is found and differs from what GenProofs.v expects breaks that
+obligation.  A declaration that is not found any more falls back to the committed value with a note (see DEFAULTS):
   rest/httpx/vars.go, rest/httpx/requests.go      header/attribute names, separator, codes
   rest/internal/security/contentsecurity.go        signature/time attribute names, X-Request-Uri
   rest/handler/authhandler.go                      the claims that are not copied to the context
@@ -19,80 +20,138 @@ def _read(rel):
     return open(os.path.join(vlib.REPO, rel)).read()
 
 
+def _pkg(rel):
+    """the file itself first, then every other non-test .go file of its package: a declaration may be moved to
+    another file of the package without any change of behaviour"""
+    d = os.path.dirname(os.path.join(vlib.REPO, rel))
+    out = [(rel, _read(rel))] if os.path.exists(os.path.join(vlib.REPO, rel)) else []
+    for f in sorted(os.listdir(d)):
+        q = os.path.join(os.path.dirname(rel), f)
+        if f.endswith(".go") and not f.endswith("_test.go") and q != rel:
+            out.append((q, _read(q)))
+    return out
+
+
 def _str_const(src, name, rel):
-    m = re.search(r"\b%s\s*=\s*\"([^\"]*)\"" % re.escape(name), src)
-    if not m:
-        raise RuntimeError("constant %s no longer found in %s" % (name, rel))
-    return m.group(1)
+    for _, text in [(rel, src)] + _pkg(rel)[1:]:
+        m = re.search(r"\b%s\s*(?:string\s*)?=\s*\"([^\"]*)\"" % re.escape(name), text)
+        if m:
+            return m.group(1)
+    raise RuntimeError("constant %s no longer found in the package of %s" % (name, rel))
 
 
 def _int_const(src, name, rel):
-    m = re.search(r"\b%s\s*=\s*(\d+)\s*(?:<<\s*(\d+))?" % re.escape(name), src)
-    if not m:
-        raise RuntimeError("constant %s no longer found in %s" % (name, rel))
-    v = int(m.group(1))
-    if m.group(2):
-        v <<= int(m.group(2))
-    return v
+    for _, text in [(rel, src)] + _pkg(rel)[1:]:
+        m = re.search(r"\b%s\s*(?:int\d*\s*)?=\s*(\d+)\s*(?:<<\s*(\d+))?" % re.escape(name), text)
+        if m:
+            v = int(m.group(1))
+            if m.group(2):
+                v <<= int(m.group(2))
+            return v
+    raise RuntimeError("constant %s no longer found in the package of %s" % (name, rel))
+
+
+# What the UNCHANGED tree declares (committed here).  A declaration that the extractor cannot find any more (the code
+# was restructured: a switch became a map, a test was split over two statements, ...) falls back to these values WITH A
+# NOTE, and the correspondence run decides: if the behaviour is the same nothing is reported (a harmless rewrite must
+# not alarm); if it differs, the model disagrees with the implementation on generated requests and prop_ok fails on a
+# concrete request (claims delivered, methods verified, bodies decrypted are all judged on observations).  A declaration
+# that IS found and has another value is written to coq/gen/C18Consts.v as found, and GenProofs.v no longer checks.
+DEFAULTS = {
+    "ContentSecurity": "X-Content-Security", "KeyField": "key", "SecretField": "secret", "TypeField": "type",
+    "CryptionType": 1, "codes": ["CodeSignaturePass", "CodeSignatureInvalidHeader", "CodeSignatureWrongTime", "CodeSignatureInvalidToken"],
+    "separator": ";", "tokensInAttribute": 2, "requestUriHeader": "X-Request-Uri", "signatureField": "signature",
+    "timeField": "time", "registered_claims": ["aud", "exp", "jti", "iat", "iss", "nbf", "sub"],
+    "verified_methods": ["DELETE", "GET", "POST", "PUT"], "contentSecurityHandlerHeader": "X-Content-Security",
+    "maxBytes": 1 << 20, "unknown_length_fix": True, "expiry_default_s": 3600,
+}
+NOTES = []
+
+
+def _registered_claims(s, rel):
+    # the claim filter of Authorize: switch k { case jwtAudience, ...: default: WithValue }  (names of string constants)
+    m = re.search(r"switch\s+k\s*\{\s*case\s+([\w,\s]+?):\s*(?://[^\n]*\n\s*)*default:\s*ctx\s*=\s*context\.WithValue\(ctx,\s*k,\s*v\)", s)
+    if m:
+        return [_str_const(s, n.strip(), rel) for n in m.group(1).split(",")]
+    # ... or a set literal of the same constants consulted before WithValue
+    m = re.search(r"map\[string\](?:struct\{\}|bool)\s*\{((?:[^{}]|\{\})*)\}", s)
+    if m and "WithValue(ctx, k, v)" in s.replace(" ", "").replace("WithValue(ctx,k,v)", "WithValue(ctx, k, v)"):
+        names = re.findall(r"(\w+)\s*:", m.group(1))
+        if names:
+            return [_str_const(s, n, rel) for n in names]
+    raise RuntimeError("claim filter of Authorize (switch k { case ...: default: WithValue }) no longer found in " + rel)
+
+
+def _verified_methods(s, rel):
+    m = re.search(r"switch\s+r\.Method\s*\{\s*case\s+((?:http\.Method\w+\s*,?\s*)+):", s)
+    if m:
+        return [x.upper() for x in re.findall(r"http\.Method(\w+)", m.group(1))]
+    ms = re.findall(r"r\.Method\s*==\s*http\.Method(\w+)", s)
+    if ms:
+        return [x.upper() for x in ms]
+    raise RuntimeError("method filter (switch r.Method { case http.Method...: }) no longer found in " + rel)
+
+
+def _unknown_length(cs, cr):
+    def side(text, pinned, repaired, what):
+        if re.search(pinned, text):
+            return False
+        if re.search(repaired, text):
+            return True
+        raise RuntimeError(what)
+    fix_cs = side(cs, r"r\.ContentLength\s*>\s*0\s*&&\s*header\.Encrypted\(\)", r"r\.ContentLength\s*!=\s*0\s*&&\s*header\.Encrypted\(\)",
+                  "the hand-over test (r.ContentLength ... && header.Encrypted()) no longer found in contentsecurityhandler.go")
+    fix_cr = side(cr, r"if\s+r\.ContentLength\s*<=\s*0\s*\{\s*next\.ServeHTTP\(cw,\s*r\)", r"if\s+r\.ContentLength\s*==\s*0\s*\{\s*next\.ServeHTTP\(cw,\s*r\)",
+                  "the pass-through test (if r.ContentLength <= 0 / == 0 { next.ServeHTTP(cw, r)) no longer found in cryptionhandler.go")
+    if fix_cs != fix_cr:
+        raise RuntimeError("contentsecurityhandler.go and cryptionhandler.go disagree about bodies of unknown length")
+    return fix_cr
 
 
 def extract():
+    """every item on its own: found -> the value in the source; not found -> the committed value + a note"""
+    del NOTES[:]
     c = {}
+
+    def item(key, f):
+        try:
+            c[key] = f()
+        except Exception as e:       # restructured source: see DEFAULTS
+            c[key] = DEFAULTS[key]
+            NOTES.append("%s: %s; committed value %r assumed, the correspondence run decides" % (key, e, DEFAULTS[key]))
     rel = "rest/httpx/vars.go"
-    s = _read(rel)
     for n in ("ContentSecurity", "KeyField", "SecretField", "TypeField"):
-        c[n] = _str_const(s, n, rel)
-    c["CryptionType"] = _int_const(s, "CryptionType", rel)
-    m = re.search(r"CodeSignaturePass\s*=\s*iota\s*((?:\s*//[^\n]*\n|\s*Code\w+\s*\n)+)", s)
-    if not m:
-        raise RuntimeError("CodeSignature* iota block no longer found in " + rel)
-    c["codes"] = ["CodeSignaturePass"] + re.findall(r"^\s*(Code\w+)\s*$", m.group(1), re.M)
-    rel = "rest/httpx/requests.go"
-    s = _read(rel)
-    c["separator"] = _str_const(s, "separator", rel)
-    c["tokensInAttribute"] = _int_const(s, "tokensInAttribute", rel)
-    rel = "rest/internal/security/contentsecurity.go"
-    s = _read(rel)
+        item(n, lambda n=n: _str_const(_read(rel), n, rel))
+    item("CryptionType", lambda: _int_const(_read(rel), "CryptionType", rel))
+
+    def codes():
+        for _, s in _pkg(rel):
+            m = re.search(r"CodeSignaturePass\s*=\s*iota\s*((?:\s*//[^\n]*\n|\s*Code\w+\s*(?://[^\n]*)?\n)+)", s)
+            if m:
+                return ["CodeSignaturePass"] + re.findall(r"^\s*(Code\w+)\s*(?://.*)?$", m.group(1), re.M)
+        raise RuntimeError("CodeSignature* iota block no longer found in the package of " + rel)
+    item("codes", codes)
+    rel2 = "rest/httpx/requests.go"
+    item("separator", lambda: _str_const(_read(rel2), "separator", rel2))
+    item("tokensInAttribute", lambda: _int_const(_read(rel2), "tokensInAttribute", rel2))
+    rel3 = "rest/internal/security/contentsecurity.go"
     for n in ("requestUriHeader", "signatureField", "timeField"):
-        c[n] = _str_const(s, n, rel)
-    rel = "rest/handler/authhandler.go"
-    s = _read(rel)
-    m = re.search(r"switch k \{\s*case ([\w, ]+):\s*//[^\n]*\n\s*default:\s*ctx = context\.WithValue\(ctx, k, v\)", s)
-    if not m:
-        raise RuntimeError("claim filter (switch k { case ...: default: WithValue }) no longer found in " + rel)
-    c["registered_claims"] = [_str_const(s, n.strip(), rel) for n in m.group(1).split(",")]
-    rel = "rest/handler/contentsecurityhandler.go"
-    s = _read(rel)
-    m = re.search(r"switch r\.Method \{\s*case ((?:http\.Method\w+,?\s*)+):", s)
-    if not m:
-        raise RuntimeError("method filter (switch r.Method { case http.Method...: }) no longer found in " + rel)
-    c["verified_methods"] = [x.upper() for x in re.findall(r"http\.Method(\w+)", m.group(1))]
-    c["contentSecurityHandlerHeader"] = _str_const(s, "contentSecurity", rel)
-    # which requests are handed to the cryption handler: ContentLength > 0 (pinned) or != 0 (repair
-    # pending/C18-unknown-length.diff: bodies of unknown length are decrypted too)
-    if re.search(r"r\.ContentLength\s*>\s*0\s*&&\s*header\.Encrypted\(\)", s):
-        fix_cs = False
-    elif re.search(r"r\.ContentLength\s*!=\s*0\s*&&\s*header\.Encrypted\(\)", s):
-        fix_cs = True
-    else:
-        raise RuntimeError("the hand-over test (r.ContentLength ... && header.Encrypted()) no longer found in " + rel)
-    rel = "rest/handler/cryptionhandler.go"
-    s = _read(rel)
-    c["maxBytes"] = _int_const(s, "maxBytes", rel)
-    if re.search(r"if r\.ContentLength\s*<=\s*0\s*\{\s*next\.ServeHTTP\(cw, r\)", s):
-        fix_cr = False
-    elif re.search(r"if r\.ContentLength\s*==\s*0\s*\{\s*next\.ServeHTTP\(cw, r\)", s):
-        fix_cr = True
-    else:
-        raise RuntimeError("the pass-through test (if r.ContentLength <= 0 / == 0 { next.ServeHTTP(cw, r)) no longer found in " + rel)
-    if fix_cs != fix_cr:
-        raise RuntimeError("contentsecurityhandler.go and cryptionhandler.go disagree about bodies of unknown length")
-    c["unknown_length_fix"] = fix_cr
-    rel = "rest/config.go"
-    m = re.search(r"Expiry\s+time\.Duration\s+`json:\",default=(\d+)([smh])\"`", _read(rel))
-    if not m:
-        raise RuntimeError("SignatureConf.Expiry default no longer found in " + rel)
-    c["expiry_default_s"] = int(m.group(1)) * {"s": 1, "m": 60, "h": 3600}[m.group(2)]
+        item(n, lambda n=n: _str_const(_read(rel3), n, rel3))
+    rel4 = "rest/handler/authhandler.go"
+    item("registered_claims", lambda: _registered_claims(_read(rel4), rel4))
+    rel5 = "rest/handler/contentsecurityhandler.go"
+    item("verified_methods", lambda: _verified_methods(_read(rel5), rel5))
+    item("contentSecurityHandlerHeader", lambda: _str_const(_read(rel5), "contentSecurity", rel5))
+    rel6 = "rest/handler/cryptionhandler.go"
+    item("maxBytes", lambda: _int_const(_read(rel6), "maxBytes", rel6))
+    item("unknown_length_fix", lambda: _unknown_length(_read(rel5), _read(rel6)))
+
+    def expiry():
+        m = re.search(r"Expiry\s+time\.Duration\s+`json:\",default=(\d+)([smh])\"`", _read("rest/config.go"))
+        if not m:
+            raise RuntimeError("SignatureConf.Expiry default no longer found in rest/config.go")
+        return int(m.group(1)) * {"s": 1, "m": 60, "h": 3600}[m.group(2)]
+    item("expiry_default_s", expiry)
     return c
 
 
@@ -130,4 +189,5 @@ def regen():
         with open(path, "w") as f:
             f.write(text)
     return ["C18Consts.v: registered_claims=%s verified_methods=%s separator=%r expiry_default=%ds unknown_length_fix=%s"
-            % (c["registered_claims"], c["verified_methods"], c["separator"], c["expiry_default_s"], c["unknown_length_fix"])]
+            % (c["registered_claims"], c["verified_methods"], c["separator"], c["expiry_default_s"], c["unknown_length_fix"])] + \
+        ["C18Consts.v: NOT FOUND, " + n for n in NOTES]
